@@ -315,22 +315,26 @@ def jobs(tier):
     three = ["TRANSIENT", "UNKNOWN", "PERMANENT"]
     kinds = ["ok", "exc", "res"]
     wall = 600 if q else 3000
-    # (a) caps x classes x causes x strategy presence x budget
+    # (a) caps x classes x causes x strategy presence x budget (split by the first outcome)
     N = 2 if q else 3
     for entry in CORE:
         for tk in ("none", "sym"):
-            out.append(dict(name=f"caps:{entry}:budget={tk}", harness="rv.props.c03:h_run",
-                            params=dict(entry=entry, N=N, kinds=kinds, classes=three, limits=["TRANSIENT", "UNKNOWN"],
-                                        cap="sym", strat=dict(table=["TRANSIENT"], default="sym"),
-                                        budget=None if tk == "none" else "sym"),
-                            max_wall_s=wall, weight=3))
+            if q and tk == "sym" and entry in ("retry.execute", "aretry.call"):
+                continue
+            for o1 in range(3):
+                out.append(dict(name=f"caps:{entry}:budget={tk}:o1={kinds[o1]}", harness="rv.props.c03:h_run",
+                                params=dict(entry=entry, N=N, kinds=kinds, classes=three, limits=["TRANSIENT", "UNKNOWN"],
+                                            cap="sym", strat=dict(table=["TRANSIENT"], default="sym"),
+                                            budget=None if tk == "none" else "sym", pin={"o1": o1}),
+                                max_wall_s=wall, weight=3 if o1 else 1))
     # (b) timings x deadline x max_attempts x budget
     N = 3 if q else 4
     for entry in CORE:
-        out.append(dict(name=f"timed:{entry}", harness="rv.props.c03:h_run",
-                        params=dict(entry=entry, N=N, kinds=["ok", "exc", "res"], classes=["TRANSIENT"], timed=True,
-                                    strat=dict(raw="real"), budget="sym"),
-                        max_wall_s=wall, weight=3))
+        for o1 in range(3):
+            out.append(dict(name=f"timed:{entry}:o1={kinds[o1]}", harness="rv.props.c03:h_run",
+                            params=dict(entry=entry, N=N, kinds=["ok", "exc", "res"], classes=["TRANSIENT"], timed=True,
+                                        strat=dict(raw="real"), budget="sym", pin={"o1": o1}),
+                            max_wall_s=wall, weight=3 if o1 else 1))
     # (c) abort polls x handler decisions x budget x max_attempts
     for entry in CORE:
         out.append(dict(name=f"ctl:{entry}", harness="rv.props.c03:h_run",
